@@ -199,6 +199,7 @@ def fork_entry():
                       "A + E0 [g7] -> S.K1", "A + E2 [g8] -> S.K0|S.K2", "A + E4 [g9] -> S.EP"]},
             {"name": "Sub", "regions": [["P0", "K0", "Q0", "EP"], ["P1", "K1"], ["P2", "K2"]],
              "kinds": {"K0": "explicit", "K1": "explicit", "K2": "explicit", "EP": "entry_pt"},
+             "state": {"K0": {"flags": ["F0"]}, "K1": {"flags": ["F0", "F1"]}, "Q0": {"flags": ["F1"]}, "P2": {"flags": ["F2"]}},
              "rows": ["P0 + E0 [g3] / a6 -> K0", "K0 + E0 / a7 -> Q0", "Q0 + E1 -> P0", "EP + E4 [g4] / a8 -> Q0",
                       "P1 + E1 [g5] / a9 -> K1", "K1 + E2 / a10 -> P1", "P2 + E2 [g6] / a11 -> K2", "K2 + E3 -> P2"]},
         ],
@@ -669,7 +670,7 @@ def internal_guard_only():
         "machines": [
             {"name": "Top", "regions": [["A", "B", "S"]], "kinds": {"S": "sub:Sub"},
              "rows": ["A + E0 / a0 -> B", "A + E1 [g4] / a1 -> B", "B + E0 / a2 -> A", "A + E2 / a3 -> S", "S + E2 [g5] / a4 -> A", "B + E3 / a8 -> A"],
-             "internal": ["E3 [g0]"],
+             "internal": ["E3 [g9] / a9", "E3 [g0]", "E1 [g10] / a10", "E1 [g11] / a11"],     # conflicting rows: the last declared is tried first
              "state": {"A": {"internal": ["E0 [g1]", "E1 [g2] / a5"]}, "B": {"internal": ["E2 [!g3]"]}}},
             {"name": "Sub", "regions": [["P", "Q"]],
              "rows": ["P + E0 / a6 -> Q", "Q + E0 -> P", "P + E3 / a7 -> Q"],
@@ -680,3 +681,37 @@ def internal_guard_only():
 
 
 ALL["internal_guard_only"] = internal_guard_only
+
+
+def kleene_defer():
+    """a Kleene-triggered row whose action defers the event (the payload and the dynamic type must survive the deferred
+    queue: C18 "queued or deferred in between"); rows of Work are action-only or guard-only so that back11 compiles them"""
+    return {
+        "name": "kleene_defer",
+        "events": ["EB", "ED:EB", "E1", "E2"],
+        "machines": [{
+            "name": "Top", "regions": [["Hold", "Work", "Done"]], "activate_deferred": True,
+            "rows": ["Hold + * [g0] / Defer", "Hold + E2 / a0 -> Work", "Work + ED / a1", "Work + EB / a2 -> Done", "Work + E1 / a3 -> Hold",
+                     "Done + E1 -> Hold", "Done + EB / a4", "Work + E2 [g1]"],
+        }],
+    }
+
+
+def exit_points_plain():
+    """exit points whose outer rows are guard-less (action-only or plain), so that back11 compiles them; the exit event
+    can be sent from outside while the exit point is inactive (second seeded defect C19, back11 under the switch policies)"""
+    return {
+        "name": "exit_points_plain",
+        "events": ["E0", "E1", "E2", {"name": "X3", "exit": True}, {"name": "X4", "exit": True}],
+        "machines": [
+            {"name": "Top", "regions": [["A", "S", "B"]], "kinds": {"S": "sub:Sub"},
+             "rows": ["A + E0 / a0 -> S", "S.XP1 + X3 / a1 -> B", "S.XP2 + X4 -> A", "B + E0 / a2 -> A", "B + X4 / a3 -> S", "S + E2 [g0] -> B"]},
+            {"name": "Sub", "regions": [["P", "Q", "XP1"], ["U", "V", "XP2"]],
+             "kinds": {"XP1": "exit_pt:X3", "XP2": "exit_pt:X4"},
+             "rows": ["P + E1 [g1] -> Q", "Q + E1 / a4 -> XP1", "U + E2 / a5 -> V", "V + E2 -> XP2", "Q + E0 -> P"]},
+        ],
+    }
+
+
+ALL["kleene_defer"] = kleene_defer
+ALL["exit_points_plain"] = exit_points_plain
